@@ -4,9 +4,10 @@
 history / two cooperating sites. Nothing from /verif's checks is disclosed: the titles are the sub-agents' own note headings."""
 import json, sys, glob, os, subprocess
 pid = sys.argv[1]
+L1, L2 = (sys.argv[2], sys.argv[3]) if len(sys.argv) > 3 else ("g", "h")
 base = subprocess.run([sys.executable, '/verif/tools/seed_prompt.py', pid], stdout=subprocess.PIPE, text=True).stdout
-base = base.replace("(call them a and b)", "(call them g and h)").replace("/a/", "/g/").replace("/b/", "/h/")
-base = base.replace("ONLY change a applied", "ONLY change g applied").replace("(same for change b)", "(same for change h)").replace("(what a and b are", "(what g and h are")
+base = base.replace("(call them a and b)", f"(call them {L1} and {L2})").replace("/a/", f"/{L1}/").replace("/b/", f"/{L2}/")
+base = base.replace("ONLY change a applied", f"ONLY change {L1} applied").replace("(same for change b)", f"(same for change {L2})").replace("(what a and b are", f"(what {L1} and {L2} are")
 titles = []
 for d in sorted(glob.glob(f'/verif/seeded/{pid}-*')):
     m = json.load(open(d + '/meta.json')); n = m.get('needs_to_manifest', '').strip().splitlines()
